@@ -192,12 +192,22 @@ def known_classes():
     return {f["bounded_class"]: f for f in d.get("findings", []) if f.get("property") == "C05" and f.get("status", "open") == "open" and f.get("bounded_class")}
 
 
+def _half(store):
+    """a store at half of its ATP capacity (there is headroom for conversions / regeneration)"""
+    with contextlib.redirect_stdout(io.StringIO()):
+        store.consume(50)
+    return store
+
+
 def scenarios(M):
   return [
     ("two-spenders-one-store", lambda M: [M.ATP_Store(budget=10, silent=True)], [[("consume", 0, [7])], [("consume", 0, [7])]]),
     ("spend-vs-regenerate", lambda M: [M.ATP_Store(budget=10, silent=True)], [[("consume", 0, [10]), ("consume", 0, [3])], [("regenerate", 0, [5])]]),
     ("convert-vs-spend", lambda M: [M.ATP_Store(budget=10, nadh_reserve=5, silent=True)], [[("consume", 0, [8]), ("convert_nadh_to_atp", 0, [5])], [("consume", 0, [6])]]),
     ("debt-spenders", lambda M: [M.ATP_Store(budget=5, max_debt=6, silent=True)], [[("consume", 0, [8, "op", M.EnergyType.ATP, True])], [("consume", 0, [8, "op", M.EnergyType.ATP, True])]]),
+    ("convert-vs-regenerate", lambda M: [_half(M.ATP_Store(budget=100, nadh_reserve=100, silent=True))], [[("convert_nadh_to_atp", 0, [50])], [("regenerate", 0, [50])]]),
+    ("convert-vs-transfer-in", lambda M: [_half(M.ATP_Store(budget=100, nadh_reserve=100, silent=True)), M.ATP_Store(budget=40, silent=True)],
+     [[("convert_nadh_to_atp", 0, [50])], [("transfer_to", 1, ["@0", 30])]]),
     ("opposite-transfers", lambda M: [M.ATP_Store(budget=10, silent=True), M.ATP_Store(budget=10, silent=True)],
      [[("transfer_to", 0, ["@1", 6])], [("transfer_to", 1, ["@0", 6])]]),
     ("transfer-vs-two-spends", lambda M: [M.ATP_Store(budget=10, silent=True), M.ATP_Store(budget=10, silent=True)],
@@ -248,7 +258,7 @@ def search(max_switch_points=40):
 
 if __name__ == "__main__":
     n, bad, seen = search(25 if "--thorough" not in sys.argv else 80)
-    out = {"status": "ok" if bad is None else "violation", "bound": "6 scenarios (2 threads, 1-2 ops each, 1-2 stores); line-granularity scheduling points; <= 3 context switches",
+    out = {"status": "ok" if bad is None else "violation", "bound": "8 scenarios (2 threads, 1-2 ops each, 1-2 stores); line-granularity scheduling points; <= 3 context switches",
            "cases": n, "known_findings": list(seen.values())}
     if bad:
         out["detail"] = bad
